@@ -198,7 +198,10 @@ func oracleC07(w *World, p *PlanSrv, h *History, sut *SUT, peers []*RawPeer) {
 			f := next()
 			if f == nil {
 				// the in-process transport can lose a terminal envelope to its own Close (C13's subject)
-				if strict && !faulty && !clientGone && !poisoned && peer.Kind != "inproc" {
+				// (nor is an answer owed once the server itself has been closed: its context is
+				// cancelled, a failed session may or may not still go out before the connection closes)
+				serverClosed := len(h.Of(-1, "server-close-called")) > 0
+				if strict && !faulty && !clientGone && !poisoned && peer.Kind != "inproc" && !serverClosed {
 					bad("C07.violation-not-answered", why, "client violation (%s: %s) was not answered with a failed session", why, short(canonJSON(in.Frame), 160))
 				}
 				phase = phDone
@@ -504,6 +507,6 @@ func init() {
 		MaxSim: 2 * time.Hour,
 		Rule: "same plan space as C03 (server configuration lattice x callback outcomes x scripted raw client words of <= 8 steps x optional link faults); every run's recorded history " +
 			"(client inputs, server session envelopes, callback invocations, visible State()) is walked through an executable reference model of the server side of the handshake that " +
-			"says, per client input, which emissions are acceptable; non-trivial = at least one scripted client connected; distinct = distinct (plan JSON, event-log hash)",
+			"says, per client input, which emissions are acceptable; Server.Close from inside a callback of a pending handshake (no answer is owed afterwards, protocol order still is); non-trivial = at least one scripted client connected; distinct = distinct (plan JSON, event-log hash)",
 	})
 }
